@@ -168,27 +168,39 @@ def run(prop):
                 # outside the domain of the semantic / typing oracles; dumps were still compared
                 chk.notes["skipped_invalid_main"] = chk.notes.get("skipped_invalid_main", 0) + 1
                 continue
+            # known finding D13 (a program that CALLS main): recognised by the decidable hypothesis noMainCall
+            main_called = "S1" in st and st["S1"][0] == "OK" and '(call "main"' in st["S1"][1] and lad.ask("typ nomaincall %s" % lad.dump(st, "S1")) == "OK false"
             # C12: decidable content of the link hypotheses of C12_chain (Scc/Props/C12.lean) on this program
             if prop == "C12" and "S1" in st and st["S1"][0] == "OK":
                 ln = lad.ask("links %s" % path)
                 key_ = "OK" if ln and ln.startswith("OK") else (ln or "none").split(" ")[0]
                 links[key_] = links.get(key_, 0) + 1
-                if ln and ln.startswith("FAIL"):
+                if ln and ln.startswith("FAIL") and not main_called:
                     link_fail.append({"file": path, "links": ln[:200]})
-            # typing / scoping oracles on the implementation's output
-            for stage, checker, owner, ok, line in lad.typechecks(st, spec["types"]):
-                if not ok and (spec["owners"] is None or owner in spec["owners"]):
+            # typing / scoping oracles on the implementation's output: the FIRST ill-typed stage is to blame
+            # (a pass is not responsible for the typing of its output when its input was ill-typed already)
+            mine = {(a, b) for a, b, _ in spec["types"]}
+            for stage, checker, owner, ok, line in lad.typechecks(st, ladder.TYPECHECKS):
+                if ok:
+                    continue
+                if (stage, checker) not in mine:
+                    break  # an EARLIER stage (another property's) is ill-typed already: nothing to blame here
+                if spec["owners"] is None or owner in spec["owners"]:
                     found = True
                     chk.impl_oracle_failures.append({"file": path, "stage": stage, "checker": checker, "line": (line or "")[:200]})
-                    chk.violation("%s:ill-typed:%s:%s" % (prop, stage, checker),
+                    chk.violation("fun2core:main-called" if main_called and stage == "S2" else "%s:ill-typed:%s:%s" % (prop, stage, checker),
                                   "implementation output of stage %s fails the %s checker: %s" % (stage, checker, (line or "")[:160]),
                                   "illtyped_%s_%s.txt" % (stage, os.path.basename(path)),
                                   "file=%s\nstage=%s\nchecker=%s\nverdict=%s\nsource:\n%s\n" % (path, stage, checker, line, open(path).read()))
+                break
             # semantic ladder
             if reached:
                 seq = lad.sequenced(st)
+                # duplicate labels (user names imitating generated labels; C14's known finding): the text is not
+                # a program an assembler accepts, it has no execution
+                label_safe = prop != "C12" or "S5" not in st or st["S5"][0] != "OK" or lad.ask("typ labelsafe %s" % lad.dump(st, "S5")) != "OK false"
                 for args in args_for(path, np_, chk.rng):
-                    rungs = lad.run_rungs(st, args, rungs=spec["rungs"], asm=[] if prop != "C12" else ladder.ASM, mon="none")
+                    rungs = lad.run_rungs(st, args, rungs=spec["rungs"], asm=[] if prop != "C12" or not label_safe else ladder.ASM, mon="none")
                     for owner, la, lb, ba, bb in ladder.disagreements(rungs, seq):
                         if spec["owners"] is not None and owner not in spec["owners"]:
                             continue
@@ -198,6 +210,8 @@ def run(prop):
                         src = open(path).read()
                         if la == "S1:fun" and shadow_capture_shape(src):
                             key = "fun2core:capture:binder-in-continuation"
+                        if main_called and la.startswith("S1") and lb.startswith("S2"):
+                            key = "fun2core:main-called"
                         chk.violation(key, "behaviour changes between %s and %s on %s args %s: %s vs %s" % (la, lb, os.path.basename(path), args, ba, bb),
                                       "sem_%s_%s.txt" % (la.split(":")[0], os.path.basename(path)),
                                       "file=%s\nargs=%s\n%s=%s\n%s=%s\nsource:\n%s\n" % (path, args, la, ba, lb, bb, src))
@@ -213,7 +227,7 @@ def run(prop):
         corr.m.close()
     chk.obligation("corr:%s" % "+".join(spec["passes"]), "correspondence", chk.corr["disagreements"] == 0,
                    "%d compared, %d disagreements" % (chk.corr["compared"], chk.corr["disagreements"]))
-    if (not proofs_ok or chk.corr["disagreements"]) and not found:
+    if (not proofs_ok or chk.corr["disagreements"]) and not chk.has_failing_input():
         what = [("%s (%s): %s" % (n, r, d)) for n, r, ok, d in chk.obligations if not ok]
         what += [json.dumps(d)[:300] for d in chk.model_disagreements[:5]]
         chk.violation("%s:unproved" % prop, "proof obligations or correspondence broken, no failing program found: " + "; ".join(what)[:600],
